@@ -100,13 +100,14 @@ type def struct {
 }
 
 type tr struct {
-	fset    *token.FileSet
-	pkgs    map[string]bool // import names of the file
-	rows    []string
-	nrows   int
-	mutable map[string]bool // variables assigned with '=' somewhere in the current function: roots, never lets
-	fn      string
-	opaque  []string
+	fset      *token.FileSet
+	pkgs      map[string]bool // import names of the file
+	rows      []string
+	nrows     int
+	mutable   map[string]bool // variables assigned with '=' somewhere in the current function: roots, never lets
+	fn        string
+	opaque    []string
+	fileLevel map[string]token.Pos // package-level var/const declared in this file
 }
 
 func (t *tr) src(n ast.Node) string {
@@ -265,6 +266,9 @@ func (t *tr) exprs(es []ast.Expr) []string {
 func (t *tr) expr(e ast.Expr) string {
 	switch e := e.(type) {
 	case *ast.Ident:
+		if known["gname"]["G_"+e.Name] && (e.Obj == nil || (t.fileLevel[e.Name] != token.NoPos && e.Obj.Pos() == t.fileLevel[e.Name])) {
+			return "(EGlob G_" + e.Name + ")" // package-level name declared in another file
+		}
 		return "(EVar " + enum("ident", "V", e.Name) + ")"
 	case *ast.BasicLit:
 		switch e.Kind {
@@ -829,7 +833,18 @@ func main() {
 		if err != nil {
 			fatal("%v", err)
 		}
-		t := &tr{fset: fset, pkgs: map[string]bool{}}
+		t := &tr{fset: fset, pkgs: map[string]bool{}, fileLevel: map[string]token.Pos{}}
+		for _, d := range af.Decls {
+			if gd, ok := d.(*ast.GenDecl); ok {
+				for _, sp := range gd.Specs {
+					if vs, ok := sp.(*ast.ValueSpec); ok {
+						for _, n := range vs.Names {
+							t.fileLevel[n.Name] = n.Pos()
+						}
+					}
+				}
+			}
+		}
 		for _, im := range af.Imports {
 			p, _ := strconv.Unquote(im.Path.Value)
 			name := filepath.Base(p)
